@@ -5,7 +5,6 @@ import re
 from .mirsym import *
 from . import opmodel
 
-INV_REG = {}
 EXEC_OP = r"^miden_processor::operations::Process::execute_op$"
 
 
@@ -21,7 +20,7 @@ class PathResult:
 
 
 class AbstractProcess:
-    def __init__(self, I, depth_gt16=False, in_syscall=None):
+    def __init__(self, I, depth_gt16=False, in_syscall=None, deep=None):
         self.I = I
         self.cur = [Poly.var("s%d" % i) for i in range(16)]
         self.nxt = [None] * 16
@@ -30,6 +29,19 @@ class AbstractProcess:
         self.helpers = None
         self.depth_gt16 = depth_gt16
         self.fresh = 0
+        self.deep = deep          # None: single-row model; list: symbolic elements below position 15 (top first)
+
+    def begin_row(self):
+        self.nxt = [None] * 16
+        self.writers = {i: [] for i in range(16)}
+        self.shifts = []
+        self.helpers = None
+
+    def end_row(self):
+        missing = [i for i, x in enumerate(self.nxt) if x is None]
+        if missing:
+            raise Unanalysable("stale next-row cells %s" % missing)
+        self.cur = list(self.nxt)
 
     def new(self, base):
         self.fresh += 1
@@ -77,7 +89,10 @@ def install(I, AP):
         for i in range(k, 16):
             AP.nxt[i - 1] = AP.cur[i]
             AP.writers[i - 1].append("shl")
-        AP.nxt[15] = Poly.var("ovf_top") if AP.depth_gt16 else Poly.const(0)
+        if AP.deep is not None:
+            AP.nxt[15] = AP.deep.pop(0) if AP.deep else Poly.const(0)
+        else:
+            AP.nxt[15] = Poly.var("ovf_top") if AP.depth_gt16 else Poly.const(0)
         AP.writers[15].append("shl")
         AP.shifts.append(("left", k))
         return unit()
@@ -89,6 +104,8 @@ def install(I, AP):
             AP.nxt[i + 1] = AP.cur[i]
             AP.writers[i + 1].append("shr")
         AP.shifts.append(("right", k))
+        if AP.deep is not None:
+            AP.deep.insert(0, AP.cur[15])
         return unit()
     add(r"^miden_processor::stack::Stack::shift_right$", shift_right)
     add(r"^miden_processor::stack::Stack::depth$", lambda I, a, f: Term("depth"))
@@ -234,9 +251,7 @@ def install_field(I):
         x = deref(a[0])
         if isinstance(x, Poly) and x.const_value() is not None:
             return Poly.const(pow(x.const_value(), -1, P)) if x.const_value() else Poly.const(0)
-        name = "inv[%r]" % (x,)
-        INV_REG[name] = x
-        return Poly.var(name)
+        return inv_var(x)
     add(r"BaseElement@FieldElement::inv$|FieldElement::inv$", inv)
 
 
@@ -290,3 +305,45 @@ def run_operation(F, variant, depth_gt16=False, max_paths=64):
             r.outcome = ("unknown", repr(out))
         results.append(r)
     return results
+
+
+def run_sequence(F, ops, max_paths=256, ndeep=16):
+    """composes the operation model along a sequence of (variant, payload tuple) on a symbolic stack e0..e15 with
+    symbolic elements e16.. below; returns list of dict(outcome, guards, stack (top 16 + deep), effects)"""
+    fn = F.fn(EXEC_OP)
+    holder = {}
+    out = []
+
+    def make():
+        I = Interp(F)
+        I.havoc = True
+        AP = AbstractProcess(I, deep=[Poly.var("e%d" % (16 + i)) for i in range(ndeep)])
+        AP.cur = [Poly.var("e%d" % i) for i in range(16)]
+        install(I, AP)
+        holder["AP"] = AP
+        return I
+
+    def run(I):
+        AP = holder["AP"]
+        proc = Opaque("Process")
+        comps = {n: Opaque(n) for n in ("system", "decoder", "stack", "range", "chiplets", "host", "max_cycles", "enable_tracing")}
+        proc.field = lambda name: comps[name]
+        for k, (variant, payload) in enumerate(ops):
+            AP.begin_row()
+            op = Agg(list(payload), "adt", opmodel.OPS, variant)
+            r = I.call(fn.id, [Ptr([proc], 0), op])
+            if isinstance(r, Agg) and r.variant == "Err":
+                e = r.items[0]
+                return ("err", k, e.variant if isinstance(e, Agg) else repr(e))
+            AP.end_row()
+        return ("ok",)
+
+    for I, res, exc in enumerate_paths(make, run, max_paths=max_paths):
+        AP = holder["AP"]
+        d = {"guards": list(I.path), "effects": list(I.effects), "stack": list(AP.cur) + list(AP.deep)}
+        if exc is not None:
+            d["outcome"] = ("panic" if isinstance(exc, PanicReached) else "unanalysable", str(exc))
+        else:
+            d["outcome"] = res
+        out.append(d)
+    return out
